@@ -1,8 +1,241 @@
+(* C41 — IDL compiler output matches the IDL declarations.  PARTIAL: the statements are about
+   the model of dds_gen's generator (Lang/IdlModel.v: [compile_defs] = reserved-word rule of the
+   grammar + RustGenerator rule by rule; [compile] adds the #define/#ifdef gating of the
+   preprocessor); pest parsing of the text and rustc ("the generated code compiles") are outside.
+   [shape_of_defs] is the structure the IDL declares, [shape_of_items] the structure of the
+   generated items as #[derive(DdsType)] reads them (first #[dust_dds] attribute only).
+   Property file: statements, `exact`, assumptions. *)
 From DustDDS Require Import Base.Machine Lang.IdlModel Lang.IdlProofs.
 Open Scope string_scope.
 Open Scope list_scope.
 
-Theorem C41_fwd : forall mods u n, gen_def mods (DFwd u n) = Some [].
-Proof. exact fwd_generates_nothing. Qed.
+(* ---- the property, for all specifications of the supported subset outside the four recorded
+   classes (1 bounded string/sequence, 2 annotated member with several declarators, 3 array
+   with several dimensions, 4 several #[dust_dds] attributes on one item) *)
+Theorem C41_idl_structure_preserved :
+  forall defs,
+    supported defs = true ->
+    known_bounds defs = false -> known_multi_annot defs = false ->
+    known_multi_dim defs = false -> known_split defs = false ->
+    exists items, compile_defs defs = Ok items /\ shape_of_items 0 items = shape_of_defs [] defs.
+Proof. exact idl_structure_preserved. Qed.
 
-Print Assumptions C41_fwd.
+(* ---- for ALL supported specifications: the structure is preserved up to exactly what the
+   classes present in the declaration lose (eb: bounds, ed: array dimensions after the first,
+   ea: what lives in attributes) *)
+Theorem C41_structure_preserved_upto_classes :
+  forall eb ed ea defs items,
+    supported defs = true ->
+    (known_bounds defs = true -> eb = true) ->
+    (known_multi_dim defs = true -> ed = true) ->
+    (known_multi_annot defs = true -> ea = true) ->
+    (known_split defs = true -> ea = true) ->
+    compile_defs defs = Ok items ->
+    map (ev_erase eb ed ea) (shape_of_items 0 items) = map (ev_erase eb ed ea) (shape_of_defs [] defs).
+Proof. exact structure_preserved_upto_classes. Qed.
+
+(* bounds are the only loss when classes 2-4 are absent (D34) *)
+Theorem C41_everything_but_bounds_preserved :
+  forall defs items,
+    supported defs = true ->
+    known_multi_annot defs = false -> known_multi_dim defs = false -> known_split defs = false ->
+    compile_defs defs = Ok items ->
+    map (ev_erase true false false) (shape_of_items 0 items)
+    = map (ev_erase true false false) (shape_of_defs [] defs).
+Proof. exact structure_preserved_except_bounds. Qed.
+
+(* the generator is total on the supported subset; it rejects reserved words and panics on
+   (exactly the) constructs it has no rule for *)
+Theorem C41_compile_total_on_supported :
+  forall defs, supported defs = true -> exists items, compile_defs defs = Ok items.
+Proof. exact compile_total_on_supported. Qed.
+
+Theorem C41_reserved_word_rejected :
+  forall defs s, In s (flat_map def_idents defs) -> ident_ok s = false -> compile_defs defs = Err 0.
+Proof. exact reserved_word_rejected. Qed.
+
+Theorem C41_unsupported_construct_panics :
+  forall defs, parse_ok defs = true -> forallb def_supported defs = false -> compile_defs defs = Panic 0.
+Proof. exact unsupported_panics. Qed.
+
+(* ---- the clauses of the property one by one (each a projection of the declared structure) *)
+
+(* names of all declarations and the module nesting; enumerators and their values; union case
+   labels / default / member names: for EVERY supported specification *)
+Theorem C41_names_and_nesting_preserved :
+  forall defs items, supported defs = true -> compile_defs defs = Ok items ->
+    names_of (shape_of_items 0 items) = names_of (shape_of_defs [] defs).
+Proof. exact names_preserved. Qed.
+
+Theorem C41_enumerators_preserved :
+  forall defs items, supported defs = true -> compile_defs defs = Ok items ->
+    enumerators_of (shape_of_items 0 items) = enumerators_of (shape_of_defs [] defs).
+Proof. exact enumerators_preserved. Qed.
+
+Theorem C41_union_labels_preserved :
+  forall defs items, supported defs = true -> compile_defs defs = Ok items ->
+    union_labels_of (shape_of_items 0 items) = union_labels_of (shape_of_defs [] defs).
+Proof. exact union_labels_preserved. Qed.
+
+(* member order, keys, member ids, optional members, extensibility / base type / qualified
+   name, enum bit bound: whenever classes 2 and 4 are absent (bounds and dimensions irrelevant) *)
+Theorem C41_member_order_preserved :
+  forall defs items, supported defs = true -> compile_defs defs = Ok items ->
+    known_multi_annot defs = false -> known_split defs = false ->
+    members_of (shape_of_items 0 items) = members_of (shape_of_defs [] defs).
+Proof. exact members_preserved. Qed.
+
+Theorem C41_keys_preserved :
+  forall defs items, supported defs = true -> compile_defs defs = Ok items ->
+    known_multi_annot defs = false -> known_split defs = false ->
+    keys_of (shape_of_items 0 items) = keys_of (shape_of_defs [] defs).
+Proof. exact keys_preserved. Qed.
+
+Theorem C41_member_ids_preserved :
+  forall defs items, supported defs = true -> compile_defs defs = Ok items ->
+    known_multi_annot defs = false -> known_split defs = false ->
+    ids_of (shape_of_items 0 items) = ids_of (shape_of_defs [] defs).
+Proof. exact ids_preserved. Qed.
+
+Theorem C41_optionals_preserved :
+  forall defs items, supported defs = true -> compile_defs defs = Ok items ->
+    known_multi_annot defs = false -> known_split defs = false ->
+    optionals_of (shape_of_items 0 items) = optionals_of (shape_of_defs [] defs).
+Proof. exact optionals_preserved. Qed.
+
+Theorem C41_extensibility_base_name_preserved :
+  forall defs items, supported defs = true -> compile_defs defs = Ok items ->
+    known_multi_annot defs = false -> known_split defs = false ->
+    struct_headers_of (shape_of_items 0 items) = struct_headers_of (shape_of_defs [] defs)
+    /\ enums_of (shape_of_items 0 items) = enums_of (shape_of_defs [] defs).
+Proof. intros. split; [apply struct_headers_preserved | apply enums_preserved]; assumption. Qed.
+
+(* union discriminator and case member kinds, aliases, constants: whenever no bound and no
+   multi-dimensional array is declared *)
+Theorem C41_unions_aliases_consts_preserved :
+  forall defs items, supported defs = true -> compile_defs defs = Ok items ->
+    known_bounds defs = false -> known_multi_dim defs = false ->
+    unions_of (shape_of_items 0 items) = unions_of (shape_of_defs [] defs)
+    /\ aliases_of (shape_of_items 0 items) = aliases_of (shape_of_defs [] defs)
+    /\ consts_of (shape_of_items 0 items) = consts_of (shape_of_defs [] defs).
+Proof.
+  intros defs items Hs Hc K1 K3. split; [apply unions_preserved; assumption|].
+  apply aliases_consts_preserved; assumption.
+Qed.
+
+(* ---- the four classes are genuine: in each there is a supported specification, in no other
+   class, on which the clause named is violated (recorded findings C41-bounds-dropped,
+   C41-annotation-first-declarator-only, C41-array-dimensions-dropped, C41-split-attributes) *)
+Theorem C41_bounds_clause_refuted :
+  exists defs items,
+    (supported defs = true /\ known_bounds defs = true /\ known_multi_annot defs = false
+     /\ known_multi_dim defs = false /\ known_split defs = false)
+    /\ compile_defs defs = Ok items
+    /\ member_kinds_of (shape_of_items 0 items) <> member_kinds_of (shape_of_defs [] defs).
+Proof. exact bounds_refuted. Qed.
+
+Theorem C41_keys_refuted_for_multi_declarator_member :
+  exists defs items,
+    (supported defs = true /\ known_bounds defs = false /\ known_multi_annot defs = true
+     /\ known_multi_dim defs = false /\ known_split defs = false)
+    /\ compile_defs defs = Ok items
+    /\ keys_of (shape_of_items 0 items) <> keys_of (shape_of_defs [] defs).
+Proof. exact multi_annot_refuted. Qed.
+
+Theorem C41_kinds_refuted_for_multi_dim_array :
+  exists defs items,
+    (supported defs = true /\ known_bounds defs = false /\ known_multi_annot defs = false
+     /\ known_multi_dim defs = true /\ known_split defs = false)
+    /\ compile_defs defs = Ok items
+    /\ member_kinds_of (shape_of_items 0 items) <> member_kinds_of (shape_of_defs [] defs).
+Proof. exact multi_dim_refuted. Qed.
+
+Theorem C41_keys_and_names_refuted_for_split_attributes :
+  exists defs items,
+    (supported defs = true /\ known_bounds defs = false /\ known_multi_annot defs = false
+     /\ known_multi_dim defs = false /\ known_split defs = true)
+    /\ compile_defs defs = Ok items
+    /\ keys_of (shape_of_items 0 items) <> keys_of (shape_of_defs [] defs)
+    /\ struct_headers_of (shape_of_items 0 items) <> struct_headers_of (shape_of_defs [] defs).
+Proof. exact split_refuted. Qed.
+
+(* ---- preprocessor: without directives nothing changes; #ifdef/#ifndef bodies count exactly
+   when the flag is (not) defined before them; a file gated out entirely is rejected *)
+Theorem C41_preprocess_identity_without_directives :
+  forall defs, preprocess (map PDef defs) = defs.
+Proof. exact preprocess_no_directive. Qed.
+
+Theorem C41_ifdef_gates :
+  forall n defs rest,
+    preprocess (PIf false n (map PDef defs) :: rest) = preprocess rest
+    /\ preprocess (PIf true n (map PDef defs) :: rest) = defs ++ preprocess rest
+    /\ preprocess (PDefine n :: PIf false n (map PDef defs) :: rest) = defs ++ snd (pp_items [n] rest)
+    /\ preprocess (PDefine n :: PIf true n (map PDef defs) :: rest) = snd (pp_items [n] rest).
+Proof. exact ifdef_gates. Qed.
+
+Theorem C41_all_gated_out_rejected : forall n body, compile [PIf false n body] = Err 0.
+Proof. exact all_gated_out_rejected. Qed.
+
+(* ---- the oracle of the correspondence run decides equality of the declared structures *)
+Theorem C41_oracle_sound :
+  (forall defs items, structure_preserved defs items = true
+                      <-> shape_of_items 0 items = shape_of_defs [] defs)
+  /\ (forall eb ed ea defs items, structure_preserved_upto eb ed ea defs items = true
+        <-> map (ev_erase eb ed ea) (shape_of_items 0 items) = map (ev_erase eb ed ea) (shape_of_defs [] defs)).
+Proof. exact (conj structure_preserved_iff structure_preserved_upto_iff). Qed.
+
+(* non-vacuity: a specification with modules, a keyed mutable struct with ids, an optional
+   member, an array, an enum with values, a union, a typedef and a constant is in the
+   supported subset and outside every class; its structure is preserved and not trivial *)
+Definition C41_example : list def :=
+  [DTypedef (TSeq (TPrim PI32) None) (DSimple "Samples") [];
+   DConst (TPrim PU16) "LIMIT" "16*4";
+   DEnum [] "Colour" (mkEnumr [mkAnnot "value" (Some "3")] "RED") [mkEnumr [] "GREEN"];
+   DStruct [mkAnnot "mutable" None; mkAnnot "topic" None] "Reading" None
+     [mkMember [mkAnnot "key" None] (TPrim PI64) (DSimple "sensor") [];
+      mkMember [mkAnnot "id" (Some "7")] (TName false ["Samples"]) (DSimple "values") [];
+      mkMember [mkAnnot "optional" None] (TStr None) (DSimple "note") [];
+      mkMember [] (TPrim POctet) (DArray "raw" "8" []) [DSimple "flags"]];
+   DModule "m"
+     [DUnion "Choice" (TPrim PI16)
+        (mkCase (Some "1") [Some "2"] (TName true ["Colour"]) (DSimple "c"))
+        [mkCase None [] (TSeq (TStr None) None) (DSimple "names")];
+      DModule "inner" [DStruct [] "Leaf" None [mkMember [] (TName true ["m"; "Choice"]) (DSimple "pick") []]]]].
+
+Example C41_nonvacuous :
+  supported C41_example = true /\ known_bounds C41_example = false /\ known_multi_annot C41_example = false
+  /\ known_multi_dim C41_example = false /\ known_split C41_example = false
+  /\ keys_of (shape_of_defs [] C41_example) = [("Reading", ["sensor"]); ("Leaf", [])]
+  /\ ids_of (shape_of_defs [] C41_example)
+     = [("Reading", [("sensor", None); ("values", Some "7"); ("note", None); ("raw", None); ("flags", None)]);
+        ("Leaf", [("pick", None)])]
+  /\ exists items, compile_defs C41_example = Ok items /\ length items = 5%nat
+                   /\ shape_of_items 0 items = shape_of_defs [] C41_example.
+Proof.
+  repeat split; try (vm_compute; reflexivity).
+  eexists. split; [vm_compute; reflexivity|]. split; vm_compute; reflexivity.
+Qed.
+
+Print Assumptions C41_idl_structure_preserved.
+Print Assumptions C41_structure_preserved_upto_classes.
+Print Assumptions C41_everything_but_bounds_preserved.
+Print Assumptions C41_compile_total_on_supported.
+Print Assumptions C41_reserved_word_rejected.
+Print Assumptions C41_unsupported_construct_panics.
+Print Assumptions C41_names_and_nesting_preserved.
+Print Assumptions C41_enumerators_preserved.
+Print Assumptions C41_union_labels_preserved.
+Print Assumptions C41_member_order_preserved.
+Print Assumptions C41_keys_preserved.
+Print Assumptions C41_member_ids_preserved.
+Print Assumptions C41_optionals_preserved.
+Print Assumptions C41_extensibility_base_name_preserved.
+Print Assumptions C41_unions_aliases_consts_preserved.
+Print Assumptions C41_bounds_clause_refuted.
+Print Assumptions C41_keys_refuted_for_multi_declarator_member.
+Print Assumptions C41_kinds_refuted_for_multi_dim_array.
+Print Assumptions C41_keys_and_names_refuted_for_split_attributes.
+Print Assumptions C41_preprocess_identity_without_directives.
+Print Assumptions C41_ifdef_gates.
+Print Assumptions C41_all_gated_out_rejected.
+Print Assumptions C41_oracle_sound.
